@@ -44,6 +44,19 @@ class ClassRef:
     def __call__(self, *args, **kw):
         return self.oe.instantiate(self.c, list(args), kw)
 
+    def sa_iter(self):
+        if "enum.Enum" in self.oe.repo.mro(self.c):
+            return self.oe.enum_members(self.c)
+        raise PyRaise("TypeError")
+
+    def sa_getitem(self, key):
+        if "enum.Enum" in self.oe.repo.mro(self.c):
+            for m in self.oe.enum_members(self.c):
+                if m[1]["name"] == key:
+                    return m
+            raise PyRaise("KeyError")
+        raise Unsupported(f"subscript of the class {self.c.name}")
+
     def __repr__(self):
         return f"<class {self.c.name}>"
 
@@ -99,7 +112,63 @@ class Instance:
                 if i > 100000:
                     raise Unsupported("unbounded sequence iteration")
             return out
-        return it()
+        r = it()
+        if isinstance(r, Instance):
+            # __iter__ handed out an iterator object of the repository (often `self`): drive its __next__, lazily - consumption
+            # is shared between everyone who holds it, as in Python
+            try:
+                nxt = r.oe.class_getattr(r.c, "__next__", r)
+            except PyRaise:
+                raise PyRaise("TypeError")  # iter() returned non-iterator
+
+            def drive():
+                n = 0
+                while True:
+                    try:
+                        v = nxt()
+                    except PyRaise as pe:
+                        if pe.name == "StopIteration":
+                            return
+                        raise
+                    yield v
+                    n += 1
+                    if n > 100000:
+                        raise Unsupported("unbounded iteration")
+
+            return PyIter(drive(), f"{r.c.name} iterator")
+        return r
+
+    # an instance inside a Python container (a list searched with `in` / .index, a dict key, a set member) answers `==` and
+    # hash() the way its class says: through its interpreted __eq__ / __hash__ if it defines them, by identity otherwise
+    def _user_dunder(self, name: str):
+        for k in self.oe.repo.mro_classes(self.c):
+            f = k.method(name)
+            if f is not None:
+                return f, k
+        return None
+
+    def __eq__(self, other):
+        if other is self:
+            return True
+        u = self._user_dunder("__eq__")
+        if u is None:
+            return NotImplemented
+        r = self.oe.call_func(u[0], [self, other], {}, u[1])
+        if r is NotImplemented:
+            return NotImplemented
+        return bool(r)
+
+    def __ne__(self, other):
+        r = self.__eq__(other)
+        return r if r is NotImplemented else not r
+
+    def __hash__(self):
+        u = self._user_dunder("__hash__")
+        if u is not None:
+            return self.oe.call_func(u[0], [self], {}, u[1])
+        if self._user_dunder("__eq__") is not None:
+            raise PyRaise("TypeError")  # a class that defines __eq__ without __hash__ is unhashable
+        return object.__hash__(self)
 
     def __repr__(self):
         return f"<{self.c.name} instance arg={self.fields.get('arg')!r}>"
@@ -441,6 +510,8 @@ SPEC_CALLABLES = {
     "collections.defaultdict": _Spec(_defaultdict, "collections.defaultdict"),
     "struct.pack": _Spec(struct.pack, "struct.pack"),
     "struct.calcsize": _Spec(struct.calcsize, "struct.calcsize"),
+    "struct.unpack": _Spec(struct.unpack, "struct.unpack"),
+    "struct.unpack_from": _Spec(struct.unpack_from, "struct.unpack_from"),
     "struct.Struct": _Spec(struct.Struct, "struct.Struct"),
 }
 import pickle as _pickle_spec  # constants of the reader's side only; nothing is unpickled
@@ -461,6 +532,15 @@ _PYTYPES = {"type": type, "object": object, "int": int, "float": float, "str": s
 class ObjEval:
     def __init__(self, repo: Repo):
         self.repo = repo
+        # exception classes the repository defines take their place in the hierarchy `except` clauses are matched against
+        from . import minieval as _me
+
+        for c in repo.classes.values():
+            for b in c.node.bases:
+                bn = (dotted(b) or "").split(".")[-1]
+                if bn and (bn.endswith(("Error", "Exception", "Warning")) or bn in _me._EXC_PARENT) and c.name != bn:
+                    _me._EXC_PARENT.setdefault(c.name, bn)
+                    break
         self._refs: Dict[str, ClassRef] = {}
         self.class_store: Dict[str, Dict[str, Any]] = {}
         self._initsub_done: Dict[str, Dict[str, Any]] = {}
@@ -548,7 +628,30 @@ class ObjEval:
             return _NodeVisitorMethod(self, receiver, name)
         if name in self.external_base_methods and isinstance(receiver, Instance) and any(not b.startswith("fickling.") for b in self.repo.mro(c)):
             return self.external_base_methods[name](receiver)
+        ext = [b for b in self.repo.mro(c) if not b.startswith("fickling.")]
+        if isinstance(receiver, Instance) and any(b in ("collections.abc.MutableSequence", "collections.abc.Sequence") for b in ext):
+            mx = _sequence_mixin(self, receiver, name, "collections.abc.MutableSequence" in ext)
+            if mx is not None:
+                return mx
+        for b in ext:
+            if b == "ast.NodeVisitor":
+                continue  # modelled: visit / generic_visit above; its visit_Constant shim only forwards to generic_visit
+            if _external_defines(b, name):
+                # an attribute the class inherits from outside the repository: not something this interpreter can run, and not
+                # an AttributeError either
+                raise Unsupported(f"attribute .{name} of {c.name} is inherited from {b}")
         raise PyRaise("AttributeError")
+
+    def enum_members(self, c: ClassInfo) -> list:
+        """The members of an Enum class, in definition order (aliases - equal values - are not separate members)."""
+        out = []
+        for name, v in c.attrs.items():
+            if name.startswith("_") or c.method(name) is not None:
+                continue
+            m = self.class_getattr(c, name, None)
+            if isinstance(m, EnumMember) and not any(x[1]["value"] == m[1]["value"] for x in out):
+                out.append(m)
+        return out
 
     def enum_member(self, k: ClassInfo, name: str, value):
         key = (k.qualname, name)
@@ -604,6 +707,35 @@ class ObjEval:
         """Attributes `__init_subclass__` implementations of c's ancestors store on c itself."""
         if c.qualname in self._initsub_done:
             return self._initsub_done[c.qualname]
+        # Classes are created in definition order when their modules are imported, and each creation runs the hook: what a
+        # hook leaves in shared objects (a registry list) is there, in that order, before any function of the package runs.
+        # So the first time any class under a hook is looked at, the hook is run for all of them, earliest definition first.
+        if not getattr(self, "_initsub_sweeping", False):
+            hook = next((k.method("__init_subclass__") for k in self.repo.mro_classes(c)[1:] if k.method("__init_subclass__") is not None), None)
+            if hook is not None:
+                self._initsub_sweeping = True
+                try:
+                    peers = [k for k in self.repo.classes.values() if k.qualname not in self._initsub_done and next((a.method("__init_subclass__") for a in self.repo.mro_classes(k)[1:] if a.method("__init_subclass__") is not None), None) is hook]
+                    for k in sorted(peers, key=lambda k: k.order):
+                        if k is not c and k.order < c.order:
+                            self.initsub_attrs(k)
+                    later = [k for k in sorted(peers, key=lambda k: k.order) if k.order > c.order]
+                finally:
+                    self._initsub_sweeping = False
+                res = self._initsub_one(c)
+                self._initsub_sweeping = True
+                try:
+                    for k in later:
+                        if k.qualname not in self._initsub_done:
+                            self._initsub_one(k)
+                finally:
+                    self._initsub_sweeping = False
+                return res
+        return self._initsub_one(c)
+
+    def _initsub_one(self, c: ClassInfo) -> Dict[str, Any]:
+        if c.qualname in self._initsub_done:
+            return self._initsub_done[c.qualname]
         out: Dict[str, Any] = {}
         self._initsub_done[c.qualname] = out  # re-entrancy: reads during the run see what was stored so far
         mro = self.repo.mro_classes(c)
@@ -641,6 +773,14 @@ class ObjEval:
     def instantiate(self, c: ClassInfo, args: list, kw: dict) -> Instance:
         """type.__call__: `cls.__new__(cls, *args, **kw)`, then - if that returned an instance of cls - its __init__ with the same
         arguments."""
+        if "enum.Enum" in self.repo.mro(c):
+            # EnumType.__call__(value): the member with that value, never a new object
+            if len(args) != 1 or kw:
+                raise Unsupported("functional Enum API")
+            for m in self.enum_members(c):
+                if m[1]["value"] == args[0]:
+                    return m
+            raise PyRaise("ValueError")
         inst = None
         for k in self.repo.mro_classes(c):
             nf = k.method("__new__")
@@ -927,11 +1067,13 @@ class OEvaluator(Evaluator):
             base = self.ev(e.value)
             if isinstance(base, Instance):
                 return self.oe.class_getattr(base.c, "__getitem__", base)(self._index(e.slice))
+            if isinstance(base, ClassRef):
+                return base.sa_getitem(self._index(e.slice))
             e = ast.copy_location(ast.Subscript(value=_Lit(base), slice=e.slice, ctx=e.ctx), e)
         if isinstance(e, ast.Compare) and len(e.ops) == 1 and isinstance(e.ops[0], (ast.In, ast.NotIn)):
+            l = self.ev(e.left)  # operands left to right, each once
             r = self.ev(e.comparators[0])
             if isinstance(r, Instance):
-                l = self.ev(e.left)
                 try:
                     res = bool(self.oe.class_getattr(r.c, "__contains__", r)(l))
                 except PyRaise:
@@ -939,7 +1081,7 @@ class OEvaluator(Evaluator):
 
                     res = any(x is l or x == l for x in _as_iterable(r))
                 return res if isinstance(e.ops[0], ast.In) else not res
-            e = ast.copy_location(ast.Compare(left=e.left, ops=e.ops, comparators=[_Lit(r)]), e)
+            e = ast.copy_location(ast.Compare(left=_Lit(l), ops=e.ops, comparators=[_Lit(r)]), e)
         if isinstance(e, ast.Call):
             r = self.call(e)
             if r is not _MISSING:
@@ -948,12 +1090,28 @@ class OEvaluator(Evaluator):
             l, r = self.ev(e.left), self.ev(e.comparators[0])
             if isinstance(e.ops[0], (ast.Eq, ast.NotEq)) and (isinstance(l, EnumMember) or isinstance(r, EnumMember)):
                 return self.compare(e.ops[0], l, r)
+            if isinstance(e.ops[0], (ast.Eq, ast.NotEq)) and (isinstance(l, Instance) or isinstance(r, Instance)):
+                # a class of the repository that defines __eq__ (or __ne__) answers for its instances; reflected for the right operand
+                for a, b in ((l, r), (r, l)):
+                    if not isinstance(a, Instance):
+                        continue
+                    for dunder in (("__ne__", "__eq__") if isinstance(e.ops[0], ast.NotEq) else ("__eq__",)):
+                        k = next((k for k in self.oe.repo.mro_classes(a.c) if k.method(dunder) is not None), None)
+                        if k is None:
+                            continue
+                        res = self.oe.call_func(k.method(dunder), [a, b], {}, k)
+                        if res is NotImplemented or (isinstance(res, Record) and res.cls == "NotImplemented"):
+                            continue
+                        t = self.truth(res)
+                        return (not t) if (isinstance(e.ops[0], ast.NotEq) and dunder == "__eq__") else t
             if any(isinstance(x, (ClassRef, Instance, _PyType, BoundMethod)) for x in (l, r)):
-                same = l is r
+                same = l is r or (isinstance(l, _PyType) and l == r)
                 return same if isinstance(e.ops[0], (ast.Eq, ast.Is)) else not same
             if isinstance(l, Record) and isinstance(r, Record) and isinstance(e.ops[0], (ast.Eq, ast.NotEq)):
                 same = _rec_eq(l, r)
                 return same if isinstance(e.ops[0], ast.Eq) else not same
+            # the operands are evaluated (once): hand their values on, not the expressions
+            e = ast.copy_location(ast.Compare(left=_Lit(l), ops=e.ops, comparators=[_Lit(r)]), e)
         if isinstance(e, ast.Set):
             return set(self.ev(x) for x in e.elts)
         if isinstance(e, ast.JoinedStr):
@@ -1002,6 +1160,8 @@ class OEvaluator(Evaluator):
                 return Native(v.fields["()" + attr], f"{v.cls}.{attr}")  # a recorded method, as a value
             if __import__("os").environ.get("SA_DEBUG_RAISE"):
                 print(f"[attr] {v.cls}.{attr} missing", file=__import__("sys").stderr)
+            if v.cls == "exception":
+                raise Unsupported(f"attribute .{attr} of a caught exception")  # only its class name is modelled
             raise PyRaise("AttributeError")
         if isinstance(v, EnumMember):
             return v.sa_attr(attr)
@@ -1040,15 +1200,48 @@ class OEvaluator(Evaluator):
                 try:
                     self.getattr(o, a)
                     return True
-                except PyRaise:
+                except PyRaise as pe:
+                    if pe.name != "AttributeError":
+                        raise  # hasattr only swallows AttributeError
                     return False
+            if fn.id == "next" and len(e.args) in (1, 2) and not (isinstance(e.args[0], ast.Call) and isinstance(e.args[0].func, ast.Name) and e.args[0].func.id == "iter"):
+                o = self.ev(e.args[0])
+                dflt = self.ev(e.args[1]) if len(e.args) == 2 else _MISSING
+                if isinstance(o, Instance):
+                    try:
+                        return o.sa_attr("__next__")()
+                    except PyRaise as pe:
+                        if pe.name == "StopIteration" and dflt is not _MISSING:
+                            return dflt
+                        raise
+                e = ast.copy_location(ast.Call(func=e.func, args=[_Lit(o)] + ([_Lit(dflt)] if dflt is not _MISSING else []), keywords=[]), e)
+            if fn.id == "reversed" and len(e.args) == 1:
+                o = self.ev(e.args[0])
+                if isinstance(o, Instance):
+                    try:
+                        return o.sa_attr("__reversed__")()
+                    except PyRaise:
+                        raise PyRaise("TypeError")
+                if isinstance(o, (list, tuple, str, bytes, range)):
+                    return PyIter(reversed(o), "reversed")
+                if isinstance(o, dict):
+                    return PyIter(reversed(list(o)), "reversed")
+                raise PyRaise("TypeError")
+            if fn.id == "callable" and len(e.args) == 1:
+                o = self.ev(e.args[0])
+                if isinstance(o, Instance):
+                    return any(k.method("__call__") is not None for k in self.oe.repo.mro_classes(o.c))
+                if isinstance(o, (Record, EnumMember)):
+                    return False
+                return bool(getattr(o, "sa_callable", False)) or isinstance(o, (ClassRef, BoundMethod, _PyType)) or (callable(o) and not isinstance(o, (Instance,)))
             if fn.id == "getattr" and len(e.args) in (2, 3):
                 o, a = self.ev(e.args[0]), self.ev(e.args[1])
+                dflt = self.ev(e.args[2]) if len(e.args) == 3 else _MISSING  # arguments are evaluated before the call, needed or not
                 try:
                     return self.getattr(o, a)
-                except PyRaise:
-                    if len(e.args) == 3:
-                        return self.ev(e.args[2])
+                except PyRaise as pe:
+                    if dflt is not _MISSING and pe.name == "AttributeError":
+                        return dflt
                     raise
             if fn.id == "setattr" and len(e.args) == 3:
                 o, a, v = self.ev(e.args[0]), self.ev(e.args[1]), self.ev(e.args[2])
@@ -1299,6 +1492,10 @@ class OEvaluator(Evaluator):
                 return
         if isinstance(st, ast.Raise):
             name = "Exception"
+            if st.exc is None:
+                if getattr(self, "_handling", None) is None:
+                    raise PyRaise("RuntimeError")  # no active exception to re-raise
+                raise PyRaise(self._handling)
             if st.exc is not None:
                 name = ast.unparse(st.exc.func if isinstance(st.exc, ast.Call) else st.exc)
                 if name not in _EXC_NAMES:
@@ -1313,7 +1510,7 @@ class OEvaluator(Evaluator):
             if callee == "print" and "builtins.print" in self.oe.externals:
                 self.ev(st.value)  # the world wants to see what is printed
                 return
-            if callee == "print" or callee.startswith(("logger.", "logging.", "log.", "_log.", "LOGGER.", "warnings.", "sys.stderr.", "sys.stdout.write")):
+            if (callee == "print" or callee.startswith(("logger.", "logging.", "log.", "_log.", "LOGGER.", "warnings.", "sys.stderr.", "sys.stdout.write"))) and callee.split(".")[0] not in self.env:  # (a local variable that happens to be called `log` is data, not a logger)
                 return  # diagnostics whose value is discarded do not influence the fragment's result
             self.ev(st.value)
             return
@@ -1339,6 +1536,31 @@ class OEvaluator(Evaluator):
                     raise Unsupported("yield from a non-iterable")
                 ys.extend(seq)
             return
+        if isinstance(st, ast.AugAssign) and isinstance(st.target, ast.Name) and st.target.id in self.__dict__.get("globals_declared", ()):
+            # `global x; x += v`: the module's binding is what changes
+            cur = self.ev(st.target)
+            val = self.ev(st.value)
+            if isinstance(cur, list) and isinstance(st.op, ast.Add) and isinstance(val, (list, tuple)):
+                cur.extend(val)
+                new = cur
+            elif isinstance(cur, (set, dict)) and isinstance(st.op, ast.BitOr) and isinstance(val, (set, frozenset, dict)) and isinstance(val, dict) == isinstance(cur, dict):
+                cur.update(val)
+                new = cur
+            else:
+                new = self.ev(ast.BinOp(left=_Lit(cur), op=st.op, right=_Lit(val)))
+            self.oe._module_values[(self.module.name, st.target.id)] = new
+            return
+        if isinstance(st, ast.AugAssign) and isinstance(st.target, ast.Name) and isinstance(self.env.get(st.target.id), Instance):
+            cur = self.env[st.target.id]
+            dunder = {ast.Add: "__iadd__", ast.Sub: "__isub__", ast.BitOr: "__ior__", ast.BitAnd: "__iand__", ast.Mult: "__imul__"}.get(type(st.op))
+            if dunder is None:
+                raise Unsupported("augmented assignment to an object")
+            try:
+                m = cur.sa_attr(dunder)
+            except PyRaise:
+                raise Unsupported(f"augmented assignment to an object without {dunder}")
+            self.env[st.target.id] = m(self.ev(st.value))
+            return
         if isinstance(st, ast.AugAssign) and isinstance(st.target, ast.Attribute):
             obj = self.ev(st.target.value)
             cur = self.getattr(obj, st.target.attr)
@@ -1359,6 +1581,35 @@ class OEvaluator(Evaluator):
                 setattr(obj, st.target.attr, new)
             else:
                 raise Unsupported("augmented attribute store on a non-object")
+            return
+        if isinstance(st, ast.AugAssign) and isinstance(st.target, ast.Subscript):
+            cont = self.ev(st.target.value)
+            idx = self._index(st.target.slice)
+            if isinstance(cont, Instance):
+                cur = self.oe.class_getattr(cont.c, "__getitem__", cont)(idx)
+            elif isinstance(cont, (list, dict, bytearray)):
+                try:
+                    cur = cont[idx]
+                except (KeyError, IndexError, TypeError) as ex:
+                    raise PyRaise(type(ex).__name__)
+            else:
+                raise Unsupported("augmented item store on a non-container")
+            val = self.ev(st.value)
+            if isinstance(cur, list) and isinstance(st.op, ast.Add) and isinstance(val, (list, tuple)):
+                cur.extend(val)
+                new = cur
+            elif isinstance(cur, (set, dict)) and isinstance(st.op, ast.BitOr) and isinstance(val, (set, frozenset, dict)) and isinstance(val, dict) == isinstance(cur, dict):
+                cur.update(val)
+                new = cur
+            else:
+                new = self.ev(ast.BinOp(left=_Lit(cur), op=st.op, right=_Lit(val)))
+            if isinstance(cont, Instance):
+                self.oe.class_getattr(cont.c, "__setitem__", cont)(idx, new)
+            else:
+                try:
+                    cont[idx] = new
+                except (KeyError, IndexError, TypeError, ValueError) as ex:
+                    raise PyRaise(type(ex).__name__)
             return
         super()._block([st])
 
@@ -1459,6 +1710,120 @@ def _stdlib_class(q: str):
     except Exception:
         return None
     return _StdlibClass(v) if isinstance(v, type) else None
+
+
+_EXT_DEFINES: Dict[tuple, bool] = {}
+
+
+def _external_defines(base: str, name: str) -> bool:
+    """Does the external class `base` (dotted) define attribute `name`?  Standard-library classes are looked at (on the
+    specification's side); for anything else the answer is "it may"."""
+    key = (base, name)
+    if key not in _EXT_DEFINES:
+        import importlib
+        import sys as _sys
+
+        mod, _, cls = base.rpartition(".")
+        ans = True
+        if mod == "builtins" or (mod.split(".")[0] in _sys.stdlib_module_names and mod.split(".")[0] not in ("tkinter", "idlelib", "turtle")):
+            try:
+                k = getattr(importlib.import_module(mod), cls)
+                ans = hasattr(k, name) and not (hasattr(object, name) and getattr(k, name, None) is getattr(object, name, None))
+            except Exception:
+                ans = True
+        _EXT_DEFINES[key] = ans
+    return _EXT_DEFINES[key]
+
+
+def _sequence_mixin(oe, recv, name: str, mutable: bool):
+    """collections.abc.Sequence / MutableSequence mixin methods, as Lib/_collections_abc.py defines them in terms of the
+    abstract methods (__getitem__, __len__, and for the mutable ones __setitem__, __delitem__, insert) - which are the
+    class's own, interpreted."""
+    get = lambda n: recv.sa_attr(n)
+
+    def items():
+        out, i = [], 0
+        gi = get("__getitem__")
+        while True:
+            try:
+                out.append(gi(i))
+            except PyRaise as pe:
+                if pe.name == "IndexError":
+                    return out
+                raise
+            i += 1
+
+    def same(a, b):
+        return a is b or OEvaluator(oe, {}, recv.c.module).compare(ast.Eq(), a, b) is True
+
+    def index(value, start=0, stop=None):
+        n = get("__len__")()
+        if start is not None and start < 0:
+            start = max(n + start, 0)
+        if stop is not None and stop < 0:
+            stop += n
+        i = start
+        gi = get("__getitem__")
+        while stop is None or i < stop:
+            try:
+                v = gi(i)
+            except PyRaise as pe:
+                if pe.name == "IndexError":
+                    break
+                raise
+            if same(v, value):
+                return i
+            i += 1
+        raise PyRaise("ValueError")
+
+    def pop(index=-1):
+        v = get("__getitem__")(index)
+        get("__delitem__")(index)
+        return v
+
+    def append(v):
+        get("insert")(get("__len__")(), v)
+
+    def extend(values):
+        from .minieval import _as_iterable
+
+        vs = items() if values is recv else _as_iterable(values)
+        if vs is None:
+            raise PyRaise("TypeError")
+        for v in list(vs):
+            append(v)
+
+    def clear():
+        try:
+            while True:
+                pop()
+        except PyRaise as pe:
+            if pe.name != "IndexError":
+                raise
+
+    def reverse():
+        n = get("__len__")()
+        gi, si = get("__getitem__"), get("__setitem__")
+        for i in range(n // 2):
+            a, b = gi(i), gi(n - i - 1)
+            si(i, b)
+            si(n - i - 1, a)
+
+    def iadd(values):
+        extend(values)
+        return recv
+
+    table = {
+        "__iter__": lambda: PyIter(items(), "Sequence.__iter__"),
+        "__contains__": lambda value: any(same(v, value) for v in items()),
+        "__reversed__": lambda: PyIter([get("__getitem__")(i) for i in reversed(range(get("__len__")()))], "Sequence.__reversed__"),
+        "index": index,
+        "count": lambda value: sum(1 for v in items() if same(v, value)),
+    }
+    if mutable:
+        table.update({"append": append, "extend": extend, "pop": pop, "clear": clear, "reverse": reverse, "__iadd__": iadd, "remove": lambda value: get("__delitem__")(index(value))})
+    fn = table.get(name)
+    return None if fn is None else Native(fn, f"{'Mutable' if mutable else ''}Sequence.{name}")
 
 
 class _ExcType:
